@@ -1190,6 +1190,19 @@ impl MDL {
             }
         }
 
+        // The last index section is padded in the header, make sure the file actually covers it
+        let end_of_data = self
+            .model_data
+            .lods
+            .iter()
+            .take(self.lods.len())
+            .map(|lod| (lod.index_data_offset + lod.index_buffer_size) as usize)
+            .max()
+            .unwrap_or(0);
+        if buffer.len() < end_of_data {
+            buffer.resize(end_of_data, 0);
+        }
+
         Some(buffer)
     }
 }
